@@ -280,8 +280,6 @@ def verdict(actual, ref, opts):
         sub.add((UNSPEC, 'sort-column-missing'))
     elif not actual or not ref:
         # a frame without columns has no rows to speak of
-        na = len(actual[0][2]) if actual else 0
-        nr = len(ref[0][2]) if ref else 0
         if actual or ref:
             sub.add((UNSPEC, 'no-columns'))
         else:
@@ -312,11 +310,7 @@ def verdict(actual, ref, opts):
     if kinds == set((FAIL,)):
         for (v, w) in sub:
             fails.add(w)
-        if len(sub) > 1:
-            pass
-    elif kinds == set((PASS,)):
-        pass
-    else:
+    elif kinds != set((PASS,)):
         if len(kinds) > 1:
             unspec.add('sort-order-dependent')
         for (v, w) in sub:
